@@ -191,6 +191,9 @@ type jobResult struct {
 	Stats      sched.Stats      `json:"stats"`
 	Violations []*run.Violation `json:"violations"`
 	Notes      []string         `json:"notes"`
+	// one written-out execution: a schedule (choice index at every scheduling point) and the outcome it produced
+	SampleSchedule []int  `json:"sample_schedule"`
+	SampleOutcome  string `json:"sample_outcome"`
 }
 
 // RunJob explores one shard of one scenario in this process and writes the result file.
@@ -243,8 +246,15 @@ func RunJob(id, tier string, specIdx, shard, shards, slot int, raceLog, out stri
 			p.Violate(name, id+":"+f.Key, fmt.Sprintf("scenario %s, schedule %v: %s", name, cs.Schedule, f.What), cs)
 		})
 	}
+	var sampleS []int
+	sampleO := ""
+	for o, sc := range st.First {
+		if sampleO == "" || o > sampleO {
+			sampleO, sampleS = o, sc
+		}
+	}
 	st.First = nil
-	res := jobResult{Scenario: name, Shard: shard, Stats: st, Violations: p.Violations, Notes: notes}
+	res := jobResult{Scenario: name, Shard: shard, Stats: st, Violations: p.Violations, Notes: notes, SampleSchedule: sampleS, SampleOutcome: sampleO}
 	b, _ := json.Marshal(res)
 	if err := os.WriteFile(out, b, 0o644); err != nil {
 		fmt.Fprintln(os.Stderr, err)
@@ -332,6 +342,9 @@ func RunCheck(p *run.Part, id, tier string, raceLog string, journalDir string) {
 		if err := json.Unmarshal(b, &r); err != nil {
 			panic(err)
 		}
+		if r.Shard == 0 && len(r.SampleSchedule) > 0 {
+			p.Sample(6, map[string]interface{}{"scenario": r.Scenario, "schedule_choice_index_at_each_scheduling_point": r.SampleSchedule, "outcome": r.SampleOutcome})
+		}
 		a := aggs[r.Scenario]
 		if a == nil {
 			a = &agg{st: sched.Stats{Outcomes: map[string]int{}, Exhaustive: true, Mode: r.Stats.Mode}}
@@ -377,7 +390,7 @@ func RunCheck(p *run.Part, id, tier string, raceLog string, journalDir string) {
 		for o := range st.Outcomes {
 			p.Nontriv(name + "/" + o)
 		}
-		p.Sample(10, map[string]interface{}{"scenario": name, "mode": st.Mode, "executions": st.Executions, "outcomes": st.Outcomes})
+		p.Sample(12, map[string]interface{}{"scenario": name, "mode": st.Mode, "executions": st.Executions, "outcomes": st.Outcomes})
 		if os.Getenv("VERIF_VERBOSE") != "" {
 			fmt.Fprintf(os.Stderr, "[%s] %s: %s executions=%d states=%d pruned=%d maxpoints=%d outcomes=%d deadlocks=%d races=%d complete=%v\n", id, name, st.Mode, st.Executions, st.States, st.Pruned, st.MaxPoints, len(st.Outcomes), st.Deadlocks, st.RaceReports, st.Exhaustive)
 		}
